@@ -59,9 +59,17 @@ func (g *Gen) binary() ast.Vertex {
 			l := g.Expr()
 			n := &ast.ExprInstanceOf{InstanceOfTkn: g.kw(token.T_INSTANCEOF, "instanceof")}
 			n.Expr = g.operand(l, pInstance, aNone, left)
-			if g.flip("ioclassvar") {
+			switch g.intn(4, "ioclass") {
+			case 0:
 				n.Class = g.simpleVar()
-			} else {
+			case 1:
+				if !(!g.O.PHP7 && g.O.NoPHP5NewChain) && !g.O.Common {
+					g.feat("instanceof-chain")
+					n.Class = g.newVariable()
+					break
+				}
+				n.Class = g.simpleVar()
+			default:
 				n.Class = g.classRef(false)
 			}
 			g.feat("op:instanceof")
@@ -539,7 +547,7 @@ func (g *Gen) suffix(v ast.Vertex, indirect, noCall, varOnly bool) ast.Vertex {
 		}
 		g.feat("dim-fetch")
 		n := &ast.ExprArrayDimFetch{Var: v, OpenBracketTkn: g.ch('['), Dim: g.Expr(), CloseBracketTkn: g.ch(']')}
-		if g.chance(1, 8, "curlydim") && !afterCall && !(php5ish && containsCall(v)) {
+		if g.chance(1, 8, "curlydim") && !afterCall && !(php5ish && (containsCall(v) || !rootedAtVariable(v))) {
 			n.OpenBracketTkn, n.CloseBracketTkn = g.ch('{'), g.ch('}')
 			g.feat("dim-fetch-curly")
 		}
@@ -605,6 +613,25 @@ func (g *Gen) suffix(v ast.Vertex, indirect, noCall, varOnly bool) ast.Vertex {
 	}
 }
 
+// rootedAtVariable reports whether a chain starts at a plain variable.
+func rootedAtVariable(v ast.Vertex) bool {
+	for v != nil {
+		switch n := v.(type) {
+		case *ast.ExprVariable:
+			return true
+		case *ast.ExprArrayDimFetch:
+			v = n.Var
+		case *ast.ExprPropertyFetch:
+			v = n.Var
+		case *ast.ExprMethodCall:
+			v = n.Var
+		default:
+			return false
+		}
+	}
+	return false
+}
+
 // containsCall reports whether a chain contains a call.
 func containsCall(v ast.Vertex) bool {
 	for v != nil {
@@ -641,7 +668,37 @@ func (g *Gen) callLike() ast.Vertex {
 	g.depth++
 	defer func() { g.depth-- }()
 	var v ast.Vertex
-	switch g.intn(4, "callkind") {
+	switch g.intn(6, "callkind") {
+	case 4:
+		// (new Foo)->bar, (new Foo)[0]->baz(): member access on an instantiation (PHP >= 5.4)
+		g.feat("new-in-brackets-chain")
+		v = g.Brackets(g.newExpr())
+		if _, anon := v.(*ast.ExprBrackets).Expr.(*ast.ExprNew).Class.(*ast.StmtClass); anon {
+			return v
+		}
+		k := g.rng(1, 3, "newchain")
+		for i := 0; i < k; i++ {
+			v = g.suffix(v, false, false, false)
+			if _, isConst := v.(*ast.ExprClassConstFetch); isConst {
+				break
+			}
+		}
+		return v
+	case 5:
+		if g.O.PHP7 && !g.O.Common {
+			// PHP 7: any bracketed expression can be dereferenced
+			g.feat("brackets-chain")
+			v = g.Brackets(g.Expr())
+			k := g.rng(1, 2, "bracketchain")
+			for i := 0; i < k; i++ {
+				v = g.suffix(v, false, false, false)
+				if _, isConst := v.(*ast.ExprClassConstFetch); isConst {
+					break
+				}
+			}
+			return v
+		}
+		fallthrough
 	case 0:
 		g.feat("static-call")
 		n := &ast.ExprStaticCall{Class: g.classRef(true), DoubleColonTkn: g.tok(token.T_PAAMAYIM_NEKUDOTAYIM, "::"), OpenParenthesisTkn: g.ch('('), CloseParenthesisTkn: g.ch(')')}
@@ -694,7 +751,7 @@ func (g *Gen) newExpr() ast.Vertex {
 			break
 		}
 		g.feat("new-chain")
-		n.Class = &ast.ExprPropertyFetch{Var: g.simpleVar(), ObjectOperatorTkn: g.tok(token.T_OBJECT_OPERATOR, "->"), Prop: g.propName()}
+		n.Class = g.newVariable()
 	case 3:
 		if g.O.PHP7 && !g.O.Common && g.depth <= g.O.MaxDepth {
 			g.feat("anonymous-class")
@@ -710,6 +767,37 @@ func (g *Gen) newExpr() ast.Vertex {
 		n.Args, n.SeparatorTkns = g.Args()
 	}
 	return n
+}
+
+// newVariable draws a class reference that is a variable chain without calls
+// ("new $a->b[0]", "$x instanceof $a->{$b}", "new A::$b"): PHP's new_variable.
+func (g *Gen) newVariable() ast.Vertex {
+	var v ast.Vertex = g.simpleVar()
+	if g.O.PHP7 && !g.O.Common && g.chance(1, 5, "newvarstatic") {
+		v = &ast.ExprStaticPropertyFetch{Class: g.Name(), DoubleColonTkn: g.tok(token.T_PAAMAYIM_NEKUDOTAYIM, "::"), Prop: g.simpleVar()}
+	}
+	k := g.rng(1, 2, "newvarchain")
+	for i := 0; i < k; i++ {
+		switch g.intn(4, "newvarsuffix") {
+		case 0:
+			if !g.O.PHP7 || g.O.Common {
+				// PHP 5 groups dims in a class reference differently; keep to property fetches
+				n := &ast.ExprPropertyFetch{Var: v, ObjectOperatorTkn: g.tok(token.T_OBJECT_OPERATOR, "->"), Prop: g.propName()}
+				v = n
+				continue
+			}
+			v = &ast.ExprArrayDimFetch{Var: v, OpenBracketTkn: g.ch('['), Dim: g.Expr(), CloseBracketTkn: g.ch(']')}
+		default:
+			n := &ast.ExprPropertyFetch{Var: v, ObjectOperatorTkn: g.tok(token.T_OBJECT_OPERATOR, "->")}
+			if g.O.PHP7 && !g.O.Common {
+				g.memberSlot(&n.OpenCurlyBracketTkn, &n.Prop, &n.CloseCurlyBracketTkn)
+			} else {
+				n.Prop = g.propName()
+			}
+			v = n
+		}
+	}
+	return v
 }
 
 // Array draws an array literal in long or short syntax.
